@@ -308,7 +308,6 @@ func c05Scenarios(tier string) []scenario {
 	var scs []scenario
 	roles := []connCfg{{Client: false}, {Client: true}, {Client: false, Flate: true}, {Client: true, Flate: true}}
 	add := func(prm c05Params, quick, thorough explore.Config) {
-		prm.Name = prm.Name
 		name := prm.Name + "/" + prm.K.String()
 		scs = append(scs, scenario{Name: name, Cfg: tierCfg(tier, quick, thorough), Setup: c05Setup(prm)})
 	}
